@@ -34,6 +34,7 @@ fn toggle(flag: &Arc<crate::variable::Mut>) -> Instruction {
 /// the instruction kinds occurring in the trees of this file (declared-shape gating, lib/patch.py)
 fn declare() {
     use crate::instruction::verif_gate::*;
+    scalar_ops_only();
     allow_mask((1 << K_VARIABLE) | (1 << K_BINOPERATION) | (1 << K_ARRAY) | (1 << K_TUPLE) | (1 << K_STRUCT) | (1 << K_ARRAYREPEAT) | (1 << K_SLICING) | (1 << K_IFELSE));
 }
 fn run(i: &Instruction) -> Result<Variable, ExecStop> {
